@@ -25,7 +25,7 @@ LEVEL = "exploration"
 RUNS = {"quick": 40000, "thorough": 1000000}
 WALL = {"quick": 240, "thorough": 1500}
 PARTITIONS = [{"name": "default", "env": {}}]
-FAULT_KINDS = ["member_changed_directly", "built_from_callers_arrays", "refusal_probe", "fill_between_scalings", "int_dtype_scaled", "numpy_scalar", "chain>=3",
+FAULT_KINDS = ["refusal_probe_under_free_arithmetics", "member_changed_directly", "built_from_callers_arrays", "refusal_probe", "fill_between_scalings", "int_dtype_scaled", "numpy_scalar", "chain>=3",
                "missed_present", "custom_errors", "inplace"]
 RULE = ("one run = one live histogram (1-3 D, any binning family, int/float dtype, with missed weight and optional "
         "custom errors) or a collection, then a seeded chain (<= 10) of scalings / divisions / normalisations "
@@ -117,7 +117,9 @@ def generate(rng, seed, part):
             nxt_entry += 1
         else:
             ops.append({"op": "refuse", "kind": rng.choice(["h*h", "h/h", "c/h", "neg_mul", "neg_div", "neg_imul",
-                                                             "array_mul", "array_div", "list_mul"]),
+                                                             "array_mul", "array_div", "list_mul",
+                                                             # refused whatever the setting of free arithmetics
+                                                             "h*h@free", "h/h@free", "c/h@free", "h/=h@free", "h*=h@free"]),
                         "c": rng.choice([-1, -2.5, -0.5, -3])})
     return {"property": PROPERTY, "scenario": "scaling_chain", "config": cfg, "entries": entries, "ops": ops}
 
@@ -480,14 +482,35 @@ def execute(plan, ctx):
             c = op["c"]
             arr = np.ones(h.shape)
             other = h.copy()
+            free = k.endswith("@free")
+            k = k.split("@")[0]
+
+            def idiv_h():
+                x = h
+                x /= other
+                return x
+
+            def imul_h():
+                x = h
+                x *= other
+                return x
             fn = {
+                "h/=h": idiv_h, "h*=h": imul_h,
                 "h*h": lambda: h * other, "h/h": lambda: h / other, "c/h": lambda: 2 / h,
                 "neg_mul": lambda: h * c, "neg_div": lambda: h / c,
                 "neg_imul": lambda: h.__imul__(c),
                 "array_mul": lambda: h * arr, "array_div": lambda: h / arr,
                 "list_mul": lambda: h * arr.tolist(),
             }[k]
-            ok, res = attempt(fn)
+            if free:
+                from physt.config import config as _config
+
+                with _config.enable_free_arithmetics():
+                    ok, res = attempt(fn)
+                k = k + "@free-arithmetics"
+                ctx.fault("refusal_probe_under_free_arithmetics")
+            else:
+                ok, res = attempt(fn)
             ctx.fault("refusal_probe")
             ctx.ev("node", f"refuse:{k}", None, "accepted" if ok else exc_tag(res))
             ctx.abstract("refuse", k, ok)
